@@ -333,3 +333,144 @@ Proof.
   induction ns as [|a t IH]; [reflexivity|]. cbn [flat_map prod_over].
   rewrite (atoms_val_app R zero one add mul SR). rewrite IH. reflexivity.
 Qed.
+
+(* ================================================================================================================ *)
+(* 4. a tensordot of glued diagrams denotes np.tensordot                                                             *)
+(* ================================================================================================================ *)
+Lemma find_app_none {A} (f : A -> bool) l1 l2 : find f l1 = None -> find f (l1 ++ l2) = find f l2.
+Proof. induction l1 as [|x t IH]; cbn; [reflexivity|]. destruct (f x); [discriminate|exact IH]. Qed.
+Lemma find_app_some {A} (f : A -> bool) l1 l2 x : find f l1 = Some x -> find f (l1 ++ l2) = Some x.
+Proof. induction l1 as [|y t IH]; cbn; [discriminate|]. destruct (f y); [auto|exact IH]. Qed.
+
+Lemma glue_app_l G1 G2 r y : ~ In y (map snd G2) -> glue_asg (G1 ++ G2) r y = glue_asg G1 r y.
+Proof.
+  intros H. pose proof (find_snd_none G2 y H) as H2. unfold glue_asg. unfold wire in *.
+  destruct (find (fun p => Nat.eqb (snd p) y) G1) as [p|] eqn:E.
+  - rewrite (find_app_some _ G1 G2 p E). reflexivity.
+  - rewrite (find_app_none _ G1 G2 E), H2. reflexivity.
+Qed.
+Lemma glue_app_r G1 G2 r y : ~ In y (map snd G1) -> glue_asg (G1 ++ G2) r y = glue_asg G2 r y.
+Proof. intros H. pose proof (find_snd_none G1 y H) as H1. unfold glue_asg. unfold wire in *. rewrite (find_app_none _ G1 G2 H1). reflexivity. Qed.
+
+Lemma glue_asg_upd' G r b k x : ~ In b (map fst G) -> ~ In b (map snd G) -> glue_asg G (upd r b k) x = upd (glue_asg G r) b k x.
+Proof.
+  intros H1 H2. destruct (Nat.eqb_spec x b) as [->|Hne].
+  - rewrite upd_same. unfold glue_asg. rewrite (find_snd_none G b H2). apply upd_same.
+  - rewrite (upd_other _ b k x Hne). unfold glue_asg.
+    destruct (find (fun p => Nat.eqb (snd p) x) G) as [p|] eqn:E.
+    + apply find_some in E. destruct E as [Hp _]. apply upd_other. intros Hc. apply H1. rewrite <- Hc. apply in_map. exact Hp.
+    + apply upd_other. exact Hne.
+Qed.
+
+Section GTensordot.
+  Variable R : Type.
+  Variables (zero one : R) (add mul : R -> R -> R).
+  Hypothesis SR : comm_semiring zero one add mul.
+  Variable wires_of : nat -> list wire.
+  Variable dim : wire -> nat.
+  Variable tbl : nat -> list nat -> R.
+
+  Local Notation sumb := (sum_bnd R zero add dim).
+  Local Notation aval := (atoms_val R one mul wires_of tbl).
+  Local Notation gval := (gvalue R zero one add mul wires_of dim tbl).
+
+  (* the summed wires of a diagram, and the wires it redirects *)
+  Definition gsum (g : garr) : list wire := gbnd g ++ map fst (gglue g).
+  Definition gred (g : garr) : list wire := map snd (gglue g).
+
+  (* a and b do not interfere: the atoms of one do not touch the summed / redirected wires of the other, the sources of the
+     gluings are not summed on the other side, the contracted axes are summed on neither side, and the contracted axes of b
+     are not redirected inside b *)
+  Record td_ok (a b : garr) (diff : list (wire * wire)) : Prop := {
+    td_a : atoms_avoid wires_of (gatoms a) (gsum b ++ gred b ++ map snd diff);
+    td_b : atoms_avoid wires_of (gatoms b) (gsum a ++ gred a);
+    td_ga : forall p, In p (gglue a) -> ~ In (fst p) (gsum b);
+    td_gb : forall p, In p (gglue b) -> ~ In (fst p) (gsum a) /\ ~ In (fst p) (map snd diff);
+    td_d : forall p, In p diff -> ~ In (fst p) (gsum a) /\ ~ In (fst p) (gsum b) /\ ~ In (snd p) (gsum b) /\ ~ In (snd p) (gred b)
+  }.
+
+  (* np.tensordot: the value of the result is the sum, over one index per contracted axis pair (bound wires: the common wire;
+     glued pairs: the index lives on a's wire and b reads it through the gluing), of value(a) . value(b) *)
+  Theorem gvalue_tensordot a b c same diff :
+    gatoms c = gatoms a ++ gatoms b -> gbnd c = same ++ gbnd a ++ gbnd b -> gglue c = diff ++ gglue a ++ gglue b ->
+    td_ok a b diff ->
+    forall rho, gval c rho = sumb (same ++ map fst diff) (fun r => mul (gval a r) (gval b (glue_asg diff r))) rho.
+  Proof.
+    intros EA EB EG [Ha Hb Hga Hgb Hd] rho. unfold gvalue at 1. rewrite EA, EB, EG.
+    assert (Hagree : forall A r1 r2, (forall x y, In x A -> In y (wires_of x) -> r1 y = r2 y) -> aval A r1 = aval A r2).
+    { intros A r1 r2 H. unfold atoms_val. apply (prod_over_ext R one mul). intros x Hx. apply atom_val_agree. intros y Hy. apply (H x y Hx Hy). }
+    rewrite (sum_bnd_perm R zero one add mul SR dim _ _ ((same ++ map fst diff) ++ (gsum a ++ gsum b))
+               (aval_glue_ext R one mul wires_of tbl _ _)) by (unfold gsum; rewrite !map_app; perm_solve).
+    rewrite sum_bnd_app. apply sum_bnd_ext_F. intros r.
+    set (Fa := fun r => aval (gatoms a) (glue_asg (gglue a) r)).
+    set (Fb := fun r => aval (gatoms b) (glue_asg (gglue b) (glue_asg diff r))).
+    rewrite (sum_bnd_ext_F R zero add dim _ _ (fun r => mul (Fa r) (Fb r))).
+    - rewrite (sum_join R zero one add mul SR dim).
+      + f_equal. unfold gvalue. fold (gsum b).
+        apply (sum_bnd_comm_subst R zero add dim (glue_asg diff) (gsum b) (fun r' => aval (gatoms b) (glue_asg (gglue b) r'))).
+        * apply aval_glue_ext.
+        * intros r1 r2 E x. apply glue_asg_ext. exact E.
+        * intros r0 s0 k x Hs. apply glue_asg_upd'.
+          -- intros Hc. apply in_map_iff in Hc. destruct Hc as (p & <- & Hp). destruct (Hd p Hp) as (_ & H2 & _). exact (H2 Hs).
+          -- intros Hc. apply in_map_iff in Hc. destruct Hc as (p & <- & Hp). destruct (Hd p Hp) as (_ & _ & H3 & _). exact (H3 Hs).
+      + (* a's factor does not look at b's summed wires *)
+        intros r1 r2 E. unfold Fa. apply Hagree. intros x y Hx Hy. unfold glue_asg.
+        destruct (find (fun p => Nat.eqb (snd p) y) (gglue a)) as [p|] eqn:Ef.
+        * apply find_some in Ef. apply E. apply (Hga p (proj1 Ef)).
+        * apply E. intros Hc. apply (Ha x Hx y Hy). apply in_or_app. left. exact Hc.
+      + (* b's factor does not look at a's summed wires *)
+        intros r1 r2 E. unfold Fb. apply Hagree. intros x y Hx Hy. unfold glue_asg at 1 3.
+        destruct (find (fun p => Nat.eqb (snd p) y) (gglue b)) as [q|] eqn:Ef.
+        * apply find_some in Ef. destruct (Hgb q (proj1 Ef)) as [G1 G2]. rewrite !(glue_asg_out diff _ _ G2). apply E. exact G1.
+        * unfold glue_asg. destruct (find (fun p => Nat.eqb (snd p) y) diff) as [p|] eqn:Ed.
+          -- apply find_some in Ed. destruct (Hd p (proj1 Ed)) as (D1 & _). apply E. exact D1.
+          -- apply E. intros Hc. apply (Hb x Hx y Hy). apply in_or_app. left. exact Hc.
+    - intros r0. rewrite (atoms_val_app R zero one add mul SR). f_equal.
+      + apply Hagree. intros x y Hx Hy.
+        rewrite glue_app_r by (intros Hc; apply (Ha x Hx y Hy); apply in_or_app; right; apply in_or_app; right; exact Hc).
+        apply glue_app_l. intros Hc. apply (Ha x Hx y Hy). apply in_or_app. right. apply in_or_app. left. exact Hc.
+      + apply Hagree. intros x y Hx Hy.
+        assert (Hya : ~ In y (gred a)) by (intros Hc; apply (Hb x Hx y Hy); apply in_or_app; right; exact Hc).
+        destruct (find (fun p => Nat.eqb (snd p) y) diff) as [p0|] eqn:Ed.
+        * pose proof (find_some _ _ Ed) as [Hp0 Es]. apply Nat.eqb_eq in Es. destruct (Hd p0 Hp0) as (_ & _ & _ & D4).
+          assert (D4' : ~ In y (gred b)) by (intros Hc; apply D4; unfold wire in *; rewrite Es; exact Hc).
+          rewrite (glue_asg_out (gglue b) _ y D4'). unfold glue_asg. unfold wire in *. rewrite (find_app_some _ diff _ p0 Ed), Ed. reflexivity.
+        * assert (Hyd : ~ In y (map snd diff)).
+          { intros Hc. apply in_map_iff in Hc. destruct Hc as (p & Ep & Hp). pose proof (find_none _ _ Ed p Hp) as Hf. cbn in Hf.
+            unfold wire in *. rewrite Ep, Nat.eqb_refl in Hf. discriminate. }
+          rewrite (glue_app_r diff _ r0 y Hyd), (glue_app_r (gglue a) _ r0 y Hya).
+          unfold glue_asg at 1 2. destruct (find (fun p => Nat.eqb (snd p) y) (gglue b)) as [q|] eqn:Ef.
+          -- apply find_some in Ef. destruct (Hgb q (proj1 Ef)) as [_ G2]. symmetry. apply (glue_asg_out diff r0 _ G2).
+          -- symmetry. apply (glue_asg_out diff r0 y Hyd).
+  Qed.
+
+  (* ... in particular for Blocks.g_tensordot *)
+  Theorem gvalue_g_tensordot a b ia ib c : g_tensordot a b ia ib = Some c ->
+    let pairs := combine (map (fun i => nth i (gaxes a) 0) ia) (map (fun i => nth i (gaxes b) 0) ib) in
+    let same := map fst (filter (fun p => Nat.eqb (fst p) (snd p)) pairs) in
+    let diff := filter (fun p => negb (Nat.eqb (fst p) (snd p))) pairs in
+    td_ok a b diff ->
+    forall rho, gval c rho = sumb (same ++ map fst diff) (fun r => mul (gval a r) (gval b (glue_asg diff r))) rho.
+  Proof.
+    intros H pairs same diff Hok. unfold g_tensordot in H.
+    repeat match type of H with (if ?x then _ else _) = _ => destruct x; [discriminate|] end.
+    injection H as <-. apply (gvalue_tensordot a b _ same diff); [reflexivity|reflexivity|reflexivity|exact Hok].
+  Qed.
+End GTensordot.
+
+(* non-vacuity of td_ok: a leaf tensor (atom 0 on wires 0, 1) against the conjugate copy of a leaf (atom 1 on wires 10, 11)
+   over their open legs: contract_leafs *)
+Definition tdx_a : garr := {| gaxes := [0; 1]; gatoms := [0]; gbnd := []; gglue := [] |}.
+Definition tdx_b : garr := {| gaxes := [10; 11]; gatoms := [1]; gbnd := []; gglue := [] |}.
+Definition tdx_wires (x : nat) : list wire := match x with 0 => [0; 1] | 1 => [10; 11] | _ => [] end.
+Example tdx_ok : g_tensordot tdx_a tdx_b [1] [1]
+                 = Some {| gaxes := [0; 10]; gatoms := [0; 1]; gbnd := []; gglue := [(1, 11)] |} /\
+                 td_ok tdx_wires tdx_a tdx_b [(1, 11)].
+Proof.
+  split; [vm_compute; reflexivity|]. constructor; cbn.
+  - intros x [<-|[]] y Hy. cbn in Hy |- *. intuition lia.
+  - intros x [<-|[]] y Hy Hc. destruct Hc.
+  - intros p [].
+  - intros p [].
+  - intros p [<-|[]]. cbn. tauto.
+Qed.
